@@ -303,3 +303,40 @@ func VerifC19_InputCounters() { verifAnyHead(7 + sym.Tier()) }
 //
 //verif:reach cut uncut
 func VerifC07_ParseAroundLimits() { VerifC09_Truncation() }
+
+// VerifC16_LevelMappingLength: the syslog input's `levelMapping` of every length
+// 0..9 (0 = default names): a mapping the constructor accepts maps every
+// severity 0..7 - a record of any PRI 0..191 parses without a panic and carries
+// the mapping's name for its severity; any other length is refused when the
+// configuration is loaded.
+//
+//verif:reach accepted rejected
+func VerifC16_LevelMappingLength() {
+	all := []string{"l0", "l1", "l2", "l3", "l4", "l5", "l6", "l7", "l8"}
+	n := sym.Choice("mappingLength", 10)
+	levels := all[:n]
+	schema := syslogprotocol.RFC5424Schema
+	cnt := base.NewLogInputCounter(fakes.NewMetrics())
+	p, err := NewParser(logger.Root(), base.NewLogAllocator(schema, 1), schema, levels, cnt)
+	if err != nil {
+		sym.Assert(n != 0 && n != 8, "a mapping of eight names and the default are accepted")
+		sym.Reach("rejected")
+		return
+	}
+	line := []byte{'<'}
+	pri := 0
+	nd := sym.Choice("priDigits", 3) + 1
+	for i := 0; i < nd; i++ {
+		d := sym.IntRange("priDigit", 0, 9)
+		line = append(line, byte('0'+d))
+		pri = pri*10 + d
+	}
+	sym.Assume(pri <= 191)
+	line = append(line, ">1 2019-08-15T15:50:46.866915+03:00 host1 app1 1234 src1 - hello world"...)
+	rec := p.Parse(line, time.Unix(1600000000, 0)) // obligation: no panic for any severity
+	sym.Assert(rec != nil, "a well-formed record is accepted")
+	if rec != nil && n > 0 {
+		sym.Assert(pri&7 < n && rec.Fields[1] == levels[pri&7], "the level is the accepted mapping's name for the severity")
+	}
+	sym.Reach("accepted")
+}
